@@ -33,7 +33,7 @@ Q_Ranges == { <<"0x401000", "0x401010">>, <<"401000", "401010">>, <<"0x401000", 
               <<"0x0", "0xffffffffffffffff">>, <<"0x1000", "0x180FFFFFF">>,
               <<"0x400000", "0x10000000">>, <<"401000", "0x401010">> }
 Q_Targets == {"400fff", "401000", "401008", "401010", "401011", "40100a", "40100b", "1000", "fff", "180ffffff", "181000000",
-              "0x401000", "4010100", "40100"}
+              "0x401000", "4010100", "40100", "0", "0x0"}
 T_Ranges == Q_Ranges \cup { <<"0x401010", "0x401000">>, <<"7fffffffffff", "0x800000000000">>, <<"f", "10">> }
 T_Targets == Q_Targets \cup {"7fffffffffff", "800000000000", "800000000001", "f", "10", "11", "e", "0x180ffffff", "0"}
 
